@@ -220,7 +220,7 @@ def asm_cases(version, tab, max_items=14):
         it["pre"] = draw(st.sampled_from([0, 0, 0, 1, 2, maxpre])) if maxpre > 1 else draw(st.sampled_from([0, 0, 1]))
         it["pre"] = min(it["pre"], maxpre)
         if k == "jump":
-            it["to"] = draw(st.integers(0, max_items))
+            it["to"] = draw(st.one_of(st.just(0), st.integers(0, max_items), st.integers(0, max_items)))
             it["arg"] = 0
         elif k == "table":
             it["arg"] = draw(st.integers(0, tab.table_limit(name)))
